@@ -27,6 +27,7 @@ pub struct Gen<'a> {
     next_tok: usize,
     opts: GenOpts,
     pub bind_names: BTreeMap<usize, String>,
+    n_call_nodes: usize,
 }
 
 #[derive(Clone)]
@@ -44,7 +45,7 @@ const KEYS: &[&str] = &["a", "b", "k", "key", "m2", "zz", "A", "with space", "é
 
 impl<'a> Gen<'a> {
     pub fn new(rng: &'a mut Rng, opts: GenOpts) -> Gen<'a> {
-        Gen { rng, fns: vec![], site: vec![], next_var: 0, next_stmt: 0, next_tok: 0, opts, bind_names: BTreeMap::new() }
+        Gen { rng, fns: vec![], site: vec![], next_var: 0, next_stmt: 0, next_tok: 0, opts, bind_names: BTreeMap::new(), n_call_nodes: 0 }
     }
 
     fn var(&mut self, p: &str) -> String {
@@ -59,11 +60,18 @@ impl<'a> Gen<'a> {
 
     fn node(&mut self, site: &str) -> NodeId {
         self.site.push(site.to_string());
+        self.n_call_nodes += 1;
         self.site.len() - 1
     }
 
+    // operator node: same index space as call nodes (position, features), no call budget
+    fn bin(&mut self, op: &'static str, kind: &str, l: Expr, r: Expr) -> Expr {
+        self.site.push(format!("operator:{kind}"));
+        Expr::Bin(self.site.len() - 1, op, Box::new(l), Box::new(r))
+    }
+
     fn calls_left(&self) -> bool {
-        self.site.len() < self.opts.max_calls
+        self.n_call_nodes < self.opts.max_calls
     }
 
     pub fn n_stmts(&self) -> usize {
@@ -168,7 +176,7 @@ impl<'a> Gen<'a> {
                     let a = self.small_int();
                     let l = self.expr_eq(&Val::Int(a), "binop-lhs", &c, pre);
                     let r = self.expr_eq(&Val::Int(n - a), "binop-rhs", &c, pre);
-                    Expr::Bin("+", Box::new(l), Box::new(r))
+                    self.bin("+", "int", l, r)
                 }
                 2 => {
                     let k = 1 + self.rng.usize_below(3);
@@ -196,7 +204,7 @@ impl<'a> Gen<'a> {
                     let k = self.rng.usize_below(s.len() + 1);
                     let l = self.expr_eq(&Val::Str(s[..k].to_string()), "binop-lhs", &c, pre);
                     let r = self.expr_eq(&Val::Str(s[k..].to_string()), "binop-rhs", &c, pre);
-                    Expr::Bin("+", Box::new(l), Box::new(r))
+                    self.bin("+", "string", l, r)
                 }
                 1 => {
                     // slice of a longer string
@@ -227,27 +235,27 @@ impl<'a> Gen<'a> {
             Val::Bool(b) => match self.rng.below(4) {
                 0 if *b => {
                     let l = self.call_site(&Val::Null, "binop-lhs", &c, pre);
-                    Expr::Bin("==", Box::new(l), Box::new(Expr::Lit(Val::Null)))
+                    self.bin("==", "eq", l, Expr::Lit(Val::Null))
                 }
                 1 => {
                     let x = self.small_int();
                     let y = if *b { x } else { x + 1 };
                     let l = self.expr_eq(&Val::Int(x), "binop-lhs", &c, pre);
                     let r = self.expr_eq(&Val::Int(y), "binop-rhs", &c, pre);
-                    Expr::Bin("==", Box::new(l), Box::new(r))
+                    self.bin("==", "eq", l, r)
                 }
                 2 => {
                     let x = self.small_int();
                     let y = if *b { x + 2 } else { x - 1 };
                     let l = self.expr_eq(&Val::Int(x), "binop-lhs", &c, pre);
                     let r = self.expr_eq(&Val::Int(y), "binop-rhs", &c, pre);
-                    Expr::Bin("<", Box::new(l), Box::new(r))
+                    self.bin("<", "cmp", l, r)
                 }
                 _ => {
                     let (op, x, y) = if *b { ("||", self.rng.chance(1, 2), true) } else { ("&&", self.rng.chance(1, 2), false) };
                     let l = self.expr_eq(&Val::Bool(x), "binop-lhs", &c, pre);
                     let r = self.expr_eq(&Val::Bool(y), "binop-rhs", &c, pre);
-                    Expr::Bin(op, Box::new(l), Box::new(r))
+                    self.bin(op, "bool", l, r)
                 }
             },
             Val::List(items) => match self.rng.below(5) {
@@ -255,7 +263,7 @@ impl<'a> Gen<'a> {
                     let k = self.rng.usize_below(items.len() + 1);
                     let l = self.expr_eq(&Val::List(items[..k].to_vec()), "binop-lhs", &c, pre);
                     let r = self.expr_eq(&Val::List(items[k..].to_vec()), "binop-rhs", &c, pre);
-                    Expr::Bin("+", Box::new(l), Box::new(r))
+                    self.bin("+", "list", l, r)
                 }
                 1 if is_consecutive(items) => {
                     let (a, b) = match (items.first(), items.last()) {
